@@ -96,7 +96,7 @@ struct Row { double y, B, mu; };                    // PVTO: y = p;  PVTG: y = R
 struct Branch { double x; std::vector<Row> rows; }; // PVTO: x = Rs; PVTG: x = pg.  rows[0] is the saturated state
 struct PvtxTab { std::vector<Branch> br; bool defaulted = false; bool strictlyIncreasing = true; };
 struct PvdTab { std::vector<Row> rows; };           // y = p
-struct CcTab { double pref, bref, c, mu, cv; };
+struct CcTab { double pref, bref, c, mu, cv; bool defaulted = false; };
 
 struct Case {
     int unit = 0, nreg = 1;
@@ -235,14 +235,16 @@ static void writePvd(std::ostringstream& o, const char* kw, const std::vector<Pv
 }
 static void writeCc(std::ostringstream& o, const char* kw, const std::vector<CcTab>& tabs) {
     o << kw << "\n";
-    for (const auto& t : tabs)
+    for (const auto& t : tabs) {
+        if (t.defaulted) { o << " /\n"; continue; }     // all-defaulted record: the table of the previous region
         o << " " << txt(t.pref) << " " << txt(t.bref) << " " << txt(t.c) << " " << txt(t.mu) << " " << txt(t.cv) << " /\n";
+    }
 }
 
 static Case genCase(Rng& rng, long idx) {
     Case cs;
     cs.unit = (int)(idx % 3);
-    cs.nreg = (int)rng.range(1, 3);
+    cs.nreg = (int)rng.range(1, 4);
     const Units& u = UNITS[cs.unit];
     for (int r = 0; r < cs.nreg; ++r) {
         cs.pvto.push_back(genPvto(rng, u));
@@ -253,8 +255,11 @@ static Case genCase(Rng& rng, long idx) {
         cs.pvdo.push_back(genPvdo(rng, u));
         cs.pvdg.push_back(genPvdg(rng, u));
         cs.pvtw.push_back(genCc(rng, u, false));
+        // PVTW (like DENSITY) accepts an all-defaulted record: the region takes the record of the PREVIOUS region
+        if (r > 0 && rng.chance(0.25)) { cs.pvtw[r] = cs.pvtw[r - 1]; cs.pvtw[r].defaulted = true; }
         cs.pvcdo.push_back(genCc(rng, u, true));
         cs.density.push_back({num(rng.uniform(700, 900) / u.dens), num(rng.uniform(990, 1100) / u.dens), num(rng.uniform(0.7, 1.3) / u.dens)});
+        if (r > 0 && rng.chance(0.25)) cs.density[r] = {-1, -1, -1};     // written as an all-defaulted record
     }
     cs.muxOil = (int)rng.below(3);
     cs.muxGas = (int)rng.below(2);
@@ -263,7 +268,7 @@ static Case genCase(Rng& rng, long idx) {
         std::ostringstream o;
         o << "RUNSPEC\nDIMENS\n 1 1 1 /\nOIL\nGAS\nWATER\nDISGAS\nVAPOIL\n" << u.name << "\nTABDIMS\n 1 " << cs.nreg
           << " 20 30 1 30 /\nGRID\nDX\n 1 /\nDY\n 1 /\nDZ\n 1 /\nTOPS\n 1 /\nPORO\n 0.2 /\nPERMX\n 1 /\nPROPS\nDENSITY\n";
-        for (const auto& d : cs.density) o << " " << txt(d[0]) << " " << txt(d[1]) << " " << txt(d[2]) << " /\n";
+        for (const auto& d : cs.density) { if (d[0] < 0) o << " /\n"; else o << " " << txt(d[0]) << " " << txt(d[1]) << " " << txt(d[2]) << " /\n"; }
         writeCc(o, "PVTW", cs.pvtw);
         if (!mux || cs.muxOil == 2) writeCc(o, "PVCDO", cs.pvcdo);
         if (!mux || cs.muxOil == 1) writePvd(o, "PVDO", cs.pvdo);
